@@ -2,7 +2,7 @@ from typing import Any
 
 from rbacx.core.ports import PolicySource
 
-from .policy_loader import parse_policy_text
+from .policy_loader import _detect_format, parse_policy_text
 
 
 class HTTPPolicySource(PolicySource):
@@ -59,9 +59,21 @@ class HTTPPolicySource(PolicySource):
         if isinstance(etag_header, str) and etag_header:
             self._etag = etag_header
 
-        # JSON fast-path: if a .json() method exists, try it regardless of headers.
+        # Determine content-type for parser hints
+        content_type: str | None = None
+        try:
+            ctype = r.headers.get("Content-Type") if hasattr(r, "headers") else None
+            if ctype is None and isinstance(getattr(r, "headers", None), dict):
+                ctype = r.headers.get("content-type")
+            if isinstance(ctype, str):
+                content_type = ctype
+        except Exception:
+            content_type = None
+
+        # JSON fast-path: if a .json() method exists, try it unless the content type or
+        # the URL says the document is YAML (the same hints parse_policy_text honours).
         # Many tests/stubs provide only .json() with no .text/.content or Content-Type.
-        if hasattr(r, "json"):
+        if hasattr(r, "json") and _detect_format(filename=self.url, content_type=content_type) == "json":
             try:
                 obj = r.json()
                 if isinstance(obj, dict):
@@ -78,17 +90,6 @@ class HTTPPolicySource(PolicySource):
                     "HTTPPolicySource: failed to parse JSON from response; falling back to text parsing",
                     exc_info=True,
                 )
-
-        # Determine content-type for parser hints
-        content_type: str | None = None
-        try:
-            ctype = r.headers.get("Content-Type") if hasattr(r, "headers") else None
-            if ctype is None and isinstance(getattr(r, "headers", None), dict):
-                ctype = r.headers.get("content-type")
-            if isinstance(ctype, str):
-                content_type = ctype
-        except Exception:
-            content_type = None
 
         # Obtain text body; some stubs provide only .text, others only .content
         body_text: str | None = getattr(r, "text", None)
